@@ -32,6 +32,7 @@ KV(k, v)  == [kind |-> "kv", k |-> k, v |-> v]
 Garbage   == [kind |-> "garbage"]
 Empty     == [kind |-> "empty"]
 Near      == [kind |-> "near"]
+LongPre(n) == [kind |-> "longpre", n |-> n]     \* n filler bytes followed by the text of a row: a row for an unanchored pattern, noise for table variant "anch" (^...$)
 
 Asc(s) == s      \* texts are sequences of code points already
 
@@ -40,12 +41,14 @@ LineText(l) ==
     [] l.kind = "garbage" -> <<35, 35, 35>>
     [] l.kind = "empty" -> <<>>
     [] l.kind = "near" -> <<107, 61, 97, 32, 118, 49>>            \* "k=a v1": one character short of a match
+    [] l.kind = "longpre" -> [i \in 1..l.n |-> 35] \o <<107, 61, 97, 32, 118, 61, 49>>
 
 \* the row a table variant extracts: <<admitted, k, v>>
-\*   "plain": both nullable;  "knn": k NOT NULL;  "vdef": v INT DEFAULT 7;  "bothnn": k NOT NULL and v NOT NULL
+\*   "plain": both nullable;  "knn": k NOT NULL;  "vdef": v INT DEFAULT 7;  "bothnn": k NOT NULL and v NOT NULL;
+\*   "anch": the pattern is anchored at both ends of the line (^...$)
 RowOf(tdef, l) ==
-  LET k == IF l.kind = "kv" THEN l.k ELSE Null
-      v0 == IF l.kind = "kv" THEN l.v ELSE Null
+  LET k == IF l.kind = "kv" THEN l.k ELSE IF l.kind = "longpre" /\ tdef # "anch" THEN TextV(<<97>>) ELSE Null
+      v0 == IF l.kind = "kv" THEN l.v ELSE IF l.kind = "longpre" /\ tdef # "anch" THEN IntV(1) ELSE Null
       v == IF tdef = "vdef" /\ IsNull(v0) THEN IntV(7) ELSE v0
       admitted == (~IsNull(k) \/ ~IsNull(v)) /\ (tdef \in {"knn", "bothnn"} => ~IsNull(k)) /\ (tdef = "bothnn" => ~IsNull(v))
   IN <<admitted, k, v>>
@@ -128,7 +131,7 @@ UpdateSt(it, st, env) ==
             ELSE LET v == o.v
                  IN CASE it.a \in {"sum", "avg"} ->
                            IF IsNull(v) THEN st
-                           ELSE IF IsNull(st.acc) THEN St(st.n + 1, v, st.vals, IF v.t \in {"int", "real"} THEN "ok" ELSE "unk")
+                           ELSE IF IsNull(st.acc) THEN St(st.n + 1, v, st.vals, IF v.t \in {"int", "real", "iv"} THEN "ok" ELSE "unk")
                            ELSE LET r == ArithV("+", st.acc, v)
                                 IN IF r.k = "val" THEN St(st.n + 1, r.v, st.vals, "ok")
                                    ELSE St(st.n, st.acc, st.vals, IF st.acc.t # v.t THEN "unk" ELSE r.k)
@@ -165,6 +168,7 @@ ResultSt(it, st) ==
     [] it.a = "avg" ->
          IF IsNull(st.acc) THEN Val(Null)
          ELSE IF st.acc.t = "int" THEN (IF st.acc.b # 0 THEN Unk ELSE Val(IntV(TruncDiv(st.acc.i, st.n))))
+         ELSE IF st.acc.t = "iv" THEN (IF st.acc.ms % st.n = 0 THEN Val(IvV(st.acc.ms \div st.n)) ELSE Unk)
          ELSE IF st.acc.c = "fin" /\ IsPow2(st.n) THEN (LET r == RealRes(st.acc.n, st.acc.d * st.n) IN IF r.t = "unk" THEN Unk ELSE Val(r))
          ELSE Unk
     [] it.a = "array_agg" ->
